@@ -44,6 +44,7 @@ import (
 
 const (
 	chainName = "test-chain"
+	chainB    = "chain-b" // a second chain: no batches are built there, but evidence can name it
 	erc20     = "0x0bc529c00C6401aEF6D220BE8C6Ea1667F6Ad93e"
 	denom     = "ugrain"
 	dummyEst  = 300000
@@ -96,7 +97,9 @@ type hist struct {
 	regKey  [5]int         // key each validator currently has registered
 
 	tids     map[string]int
-	curTid   string
+	curTid   string // deployment id in force on test-chain
+	tidB     string // deployment id in force on chain-b
+	regKeyB  [5]int // key each validator has registered on chain-b
 	scid     uint64
 	bodies   map[string]int
 	cpTriple map[string]triple
@@ -242,6 +245,7 @@ func (h *hist) oracle(after string) {
 		cctx, _ := h.ctx.CacheContext()
 		before := h.jailed(cctx)
 		class, _ := h.submit(cctx, chainName, g.Subject, g.Sig)
+		h.submit(cctx, chainB, g.Subject, g.Sig) // the submitter also chooses the chain
 		// the subject's BytesToSign field is the submitter's to choose: blank it, garble it
 		forged := g.Subject
 		forged.BytesToSign = nil
@@ -289,14 +293,20 @@ func (h *hist) regList() string {
 			}
 		}
 		for _, ci := range va.ExternalChainInfo {
-			if ci.ChainReferenceID != chainName {
+			mc := 0
+			switch ci.ChainReferenceID {
+			case chainName:
+				mc = 1
+			case chainB:
+				mc = 2
+			default:
 				continue
 			}
 			k, ok := h.keyAddr[strings.ToLower(ci.Address)]
 			if !ok {
 				k = 99
 			}
-			items = append(items, fmt.Sprintf("(1, %d, %d)", vi, k))
+			items = append(items, fmt.Sprintf("(%d, %d, %d)", mc, vi, k))
 		}
 	}
 	return emit.List(items)
@@ -387,6 +397,22 @@ func newHist(t *testing.T, run *emit.Run) *hist {
 	h.curTid = string(ci.SmartContractUniqueID)
 	h.scid = ci.ActiveSmartContractID
 	h.steps = append(h.steps, fmt.Sprintf("C13.EStep (OSetTid 1 %d) 0 []", h.tidID(h.curTid)))
+	// second chain; on it validator i registers the key validator i+1 uses on test-chain
+	if err := in.EvmKeeper.AddSupportForNewChain(ctx, chainB, 2, 123, "0x5678", big.NewInt(55)); err != nil {
+		t.Fatal(err)
+	}
+	cib, err := in.EvmKeeper.GetChainInfo(ctx, chainB)
+	if err != nil {
+		t.Fatal(err)
+	}
+	h.tidB = string(cib.SmartContractUniqueID)
+	h.steps = append(h.steps, fmt.Sprintf("C13.EStep (OSetTid 2 %d) 0 []", h.tidID(h.tidB)))
+	for i := 0; i < 5; i++ {
+		h.regKeyB[i] = (i + 1) % 5
+		if err := h.register(i); err != nil {
+			t.Fatalf("register on chain-b: %v", err)
+		}
+	}
 	h.steps = append(h.steps, fmt.Sprintf("C13.EStep (OSetReg %s) 0 []", h.regList()))
 	h.replay = append(h.replay, map[string]any{"op": "setup: SetupFiveValChain, validator i registered with EthPrivKeys[i]"})
 	return h
@@ -596,15 +622,37 @@ func (h *hist) opEndBlock() {
 func (h *hist) opSetTid() {
 	h.scid++
 	id := fmt.Sprintf("compass-%d", h.scid)
-	err := h.in.EvmKeeper.ActivateChainReferenceID(h.ctx, chainName, &evmtypes.SmartContract{Id: h.scid}, "0xabc", []byte(id))
+	chain, mc := chainName, 1
+	if h.r.Intn(4) == 0 {
+		chain, mc = chainB, 2
+		if h.r.Intn(2) == 0 {
+			id = h.curTid // chain-b ends up with the id test-chain has: the two chains share checkpoints
+		}
+	}
+	err := h.in.EvmKeeper.ActivateChainReferenceID(h.ctx, chain, &evmtypes.SmartContract{Id: h.scid}, "0xabc", []byte(id))
 	if err != nil {
 		h.t.Fatalf("ActivateChainReferenceID: %v", err)
 	}
-	ci, _ := h.in.EvmKeeper.GetChainInfo(h.ctx, chainName)
-	h.curTid = string(ci.SmartContractUniqueID)
+	ci, _ := h.in.EvmKeeper.GetChainInfo(h.ctx, chain)
+	now := string(ci.SmartContractUniqueID)
+	if mc == 1 {
+		h.curTid = now
+	} else {
+		h.tidB = now
+	}
 	h.republish()
-	h.run.Count("op", "redeploy")
-	h.step(fmt.Sprintf("OSetTid 1 %d", h.tidID(h.curTid)), rOk, map[string]any{"op": "redeploy", "unique_id": h.curTid})
+	h.run.Count("op", "redeploy:"+chain)
+	h.step(fmt.Sprintf("OSetTid %d %d", mc, h.tidID(now)), rOk, map[string]any{"op": "redeploy", "chain": chain, "unique_id": now})
+}
+
+// register writes validator v's external chain infos (both chains) as h.regKey / h.regKeyB say.
+func (h *hist) register(v int) error {
+	a := crypto.PubkeyToAddress(h.keys[h.regKey[v]].PublicKey)
+	b := crypto.PubkeyToAddress(h.keys[h.regKeyB[v]].PublicKey)
+	return h.in.ValsetKeeper.AddExternalChainInfo(h.ctx, keeper.ValAddrs[v], []*valsettypes.ExternalChainInfo{
+		{ChainType: "evm", ChainReferenceID: chainName, Address: a.String(), Pubkey: a.Bytes()},
+		{ChainType: "evm", ChainReferenceID: chainB, Address: b.String(), Pubkey: b.Bytes()},
+	})
 }
 
 func (h *hist) opSetReg() {
@@ -613,16 +661,20 @@ func (h *hist) opSetReg() {
 	if h.r.Intn(3) == 0 {
 		key = h.r.Intn(9)
 	}
-	a := crypto.PubkeyToAddress(h.keys[key].PublicKey)
-	err := h.in.ValsetKeeper.AddExternalChainInfo(h.ctx, keeper.ValAddrs[v], []*valsettypes.ExternalChainInfo{
-		{ChainType: "evm", ChainReferenceID: chainName, Address: a.String(), Pubkey: a.Bytes()},
-	})
-	if err == nil {
+	oldA, oldB := h.regKey[v], h.regKeyB[v]
+	onB := h.r.Intn(3) == 0
+	if onB {
+		h.regKeyB[v] = key
+	} else {
 		h.regKey[v] = key
+	}
+	err := h.register(v)
+	if err != nil {
+		h.regKey[v], h.regKeyB[v] = oldA, oldB
 	}
 	h.run.Count("op", "re-register")
 	h.run.Count("re-register-ok", fmt.Sprint(err == nil))
-	h.step("OSetReg "+h.regList(), rOk, map[string]any{"op": "re-register", "validator": v, "key": key, "ok": err == nil})
+	h.step("OSetReg "+h.regList(), rOk, map[string]any{"op": "re-register", "validator": v, "key": key, "chain-b": onB, "ok": err == nil})
 }
 
 func (h *hist) opUnjail() {
@@ -663,7 +715,10 @@ func (h *hist) anySubject() (types.OutgoingTxBatch, bool) {
 }
 
 func (h *hist) opEvidence() {
-	chain, mchain := chainName, 1
+	chain, mchain, tid := chainName, 1, h.curTid
+	if h.r.Intn(5) == 0 {
+		chain, mchain, tid = chainB, 2, h.tidB
+	}
 	var subj types.OutgoingTxBatch
 	var sig string
 	sgTerm := ""
@@ -708,8 +763,11 @@ func (h *hist) opEvidence() {
 		key := h.r.Intn(9)
 		if h.r.Intn(2) == 0 {
 			key = h.regKey[h.r.Intn(5)]
+			if mchain == 2 {
+				key = h.regKeyB[h.r.Intn(5)]
+			}
 		}
-		tr, cp := h.tripleOf(s, h.curTid)
+		tr, cp := h.tripleOf(s, tid)
 		subj, sig, kind = s, h.sign(key, cp), "signed-variant"
 		sgTerm = fmt.Sprintf("(%d, %s)", key, tr.coq())
 	case p < 88: // signature over bytes that are no checkpoint
@@ -720,12 +778,18 @@ func (h *hist) opEvidence() {
 		junk := make([]byte, 32)
 		h.r.Read(junk)
 		key := h.regKey[h.r.Intn(5)]
+		if h.r.Intn(4) != 0 {
+			s.BatchNonce += 2000
+		}
 		subj, sig, kind = s, h.sign(key, junk), "signed-junk"
 		sgTerm = fmt.Sprintf("(%d, (-1, 0, 0))", key)
 	case p < 95: // malformed signature
 		s, ok := h.anySubject()
 		if !ok {
 			s = types.OutgoingTxBatch{TokenContract: erc20, BatchTimeout: 420, ChainReferenceId: chainName}
+		}
+		if h.r.Intn(4) != 0 {
+			s.BatchNonce += 1000 // never issued, so the handler gets as far as the signature
 		}
 		subj, kind = s, "malformed"
 		sig = []string{"foo", "", "a", "0x", "zz" + strings.Repeat("0", 128), hex.EncodeToString([]byte("short"))}[h.r.Intn(6)]
@@ -748,8 +812,8 @@ func (h *hist) opEvidence() {
 	}
 	var str triple
 	var scp []byte
-	if mchain == 1 {
-		str, scp = h.tripleOf(subj, h.curTid)
+	if mchain != 9 {
+		str, scp = h.tripleOf(subj, tid)
 	} else {
 		str = triple{0, h.bodyID(subj), effEst(subj.GasEstimate)}
 	}
